@@ -391,6 +391,17 @@ func nmReplayParallel(args []string) error {
 			}()
 		}
 		wg.Wait()
+		// long-lived objects: the same cases once more, in order, through one reused
+		// Result and projections that live for the whole run
+		for i := range lines {
+			if !verdicts[i].OK {
+				continue
+			}
+			if v := safeCall(nmStreamCase, lines[i]); !v.OK {
+				v.ID, v.Family = verdicts[i].ID, "names"
+				verdicts[i] = v
+			}
+		}
 		for i := range verdicts {
 			if verdicts[i].Signature == "bad-case-line" {
 				return fmt.Errorf("bad case line: %s", verdicts[i].Detail)
@@ -617,4 +628,167 @@ func nmCfgString(res *benchfmt.Result) string {
 	}
 	b.WriteByte('}')
 	return b.String()
+}
+
+// ---------------------------------------------------------------- long-lived objects
+//
+// The extraction rules are functions of the Result's current content.  The stream
+// pass checks that with objects that have a history: one Result whose name and
+// configuration are rewritten in place from case to case (same backing arrays, so
+// consecutive names of equal length sit at the same address), projections of two
+// and more fields that are created once per field list and see every case (their
+// key tables grow; tuples such as ("x1","2") and ("x","12") meet in them), and a
+// clone of the Result whose configuration is then edited.  Expected values are the
+// specification's, as in nmRun.
+
+type nmLive struct {
+	proj   *benchproc.Projection
+	fields []*benchproc.Field
+	byTup  map[string]benchproc.Key
+	byKey  map[benchproc.Key]string
+}
+
+var nmLives = map[string]*nmLive{}
+var nmStreamRes = &benchfmt.Result{Iters: 1, Values: []benchfmt.Value{{Value: 1, Unit: "sec/op"}}}
+
+func nmLiveFor(keys []string) (*nmLive, error) {
+	id := strings.Join(keys, "\x00")
+	if l, ok := nmLives[id]; ok {
+		return l, nil
+	}
+	var pp benchproc.ProjectionParser
+	qs := make([]string, len(keys))
+	for i, k := range keys {
+		qs[i] = strconv.Quote(k)
+		if !utf8.ValidString(k) {
+			return nil, nil // keys that cannot be written in an expression are skipped
+		}
+	}
+	proj, err := pp.Parse(strings.Join(qs, ","), nil)
+	if err != nil {
+		return nil, fmt.Errorf("projection %s: %v", strings.Join(qs, ","), err)
+	}
+	l := &nmLive{proj: proj, fields: proj.Fields(), byTup: map[string]benchproc.Key{}, byKey: map[benchproc.Key]string{}}
+	if len(l.fields) != len(keys) {
+		return nil, fmt.Errorf("projection %s has %d fields", strings.Join(qs, ","), len(l.fields))
+	}
+	nmLives[id] = l
+	return l, nil
+}
+
+func nmStreamCase(raw json.RawMessage) Verdict {
+	var c nmCase
+	if err := json.Unmarshal(raw, &c); err != nil {
+		panic(fmt.Sprintf("bad names case: %v", err))
+	}
+	for passNo := 0; passNo < 2; passNo++ {
+		conc := nmConcretise(c.N, passNo)
+		tab := &c.X0
+		if passNo == 1 {
+			tab = &c.X1
+		}
+		if v := nmStreamRun(&c, tab, conc); !v.OK {
+			v.Concrete = conc.String()
+			return v
+		}
+	}
+	return pass()
+}
+
+func nmStreamRun(c *nmCase, tab *nmTable, conc *nmConc) Verdict {
+	name := conc.str(c.N)
+	res := nmStreamRes
+	res.Name = append(res.Name[:0], name...)
+	// configuration rewritten in place: delete what is there, then add (stale slots are reused)
+	for len(res.Config) > 0 {
+		res.SetConfig(res.Config[len(res.Config)-1].Key, "")
+	}
+	want := map[string]string{
+		".name":       conc.str(tab.Name),
+		".fullname":   conc.str(tab.Full),
+		"/" + conc.k:  conc.str(tab.K),
+		"/" + conc.a:  conc.str(tab.A),
+		"/gomaxprocs": conc.str(tab.G),
+		conc.keyK:     conc.val(tab.PK),
+		conc.keyC:     conc.val(tab.PC),
+		conc.keyZ:     conc.val(tab.PZ),
+	}
+	if c.CK {
+		res.SetConfig(conc.keyK, conc.vK)
+	}
+	if c.CC {
+		res.SetConfig(conc.keyC, conc.vC)
+	}
+	lists := [][]string{
+		{".name", "/gomaxprocs"},
+		{"/" + conc.k, "/" + conc.a},
+		{".name", "/" + conc.a, "/gomaxprocs", conc.keyC},
+		{conc.keyK, conc.keyC, conc.keyZ},
+		{".fullname", conc.keyK},
+	}
+	check := func(r *benchfmt.Result, what string) *Verdict {
+		for _, keys := range lists {
+			uniq := keys[:0:0]
+			for _, k := range keys {
+				dup := false
+				for _, u := range uniq {
+					dup = dup || u == k
+				}
+				if !dup {
+					uniq = append(uniq, k)
+				}
+			}
+			l, err := nmLiveFor(uniq)
+			if err != nil {
+				v := fail("parse-error", "%v", err)
+				return &v
+			}
+			if l == nil {
+				continue
+			}
+			key := l.proj.Project(r)
+			tup := make([]string, len(uniq))
+			for i, k := range uniq {
+				tup[i] = want[k]
+				if got := key.Get(l.fields[i]); got != want[k] {
+					v := fail("stream-proj", "%s: name %q config %s through the long-lived projection %q: %s = %q, want %q", what, name, nmCfgString(r), uniq, k, got, want[k])
+					return &v
+				}
+			}
+			ts := strings.Join(tup, "\x00")
+			if prev, ok := l.byKey[key]; ok && prev != ts {
+				v := fail("stream-key-collision", "%s: projection %q gives name %q the key of the different tuple %q", what, uniq, name, strings.Split(prev, "\x00"))
+				return &v
+			}
+			if k0, ok := l.byTup[ts]; ok && k0 != key {
+				v := fail("stream-key-split", "%s: projection %q gives tuple %q two different keys", what, uniq, tup)
+				return &v
+			}
+			l.byKey[key], l.byTup[ts] = ts, key
+		}
+		return nil
+	}
+	if v := check(res, "reused result"); v != nil {
+		return *v
+	}
+	// a clone, then edited: the first key gets a longer value, the others must keep theirs
+	if len(res.Config) > 0 {
+		cl := res.Clone()
+		k0 := cl.Config[0].Key
+		saved := want[k0]
+		// one byte longer (fits whatever slack the clone's buffer has), then much longer (does not)
+		for _, longer := range []string{string(cl.Config[0].Value) + "x", string(cl.Config[0].Value) + "-and-a-good-deal-longer-than-it-was"} {
+			cl.SetConfig(k0, longer)
+			want[k0] = longer
+			v := check(cl, "clone with "+k0+" set to a longer value")
+			want[k0] = saved
+			if v != nil {
+				return *v
+			}
+		}
+		if v := check(res, "original after its clone was edited"); v != nil {
+			return *v
+		}
+	}
+	return pass()
 }
